@@ -93,7 +93,7 @@ func (P *Program) VerifyFunc(fn *ssa.Function) (res *FuncResult) {
 	fr.old = st.clone()
 	c.initState = fr.old
 	name := c.relName(fn)
-	if c.prog.isLogg(fn) {
+	if c.prog.inRoot(fn) {
 		c.invEntry = c.assumeInvariants(st)
 	}
 	var props []string
@@ -654,7 +654,7 @@ func (c *Ctx) assumeInvariants(st *State) []string {
 
 // checkInvariants: every package invariant holds again when the function returns.
 func (c *Ctx) checkInvariants(fr *Frame, ex *exitInfo, name string, props []string) {
-	if !c.prog.isLogg(c.fn) {
+	if !c.prog.inRoot(c.fn) {
 		return
 	}
 	for i, inv := range c.prog.Invariants {
